@@ -25,7 +25,7 @@ func init() {
 		Rule: "listings of n in {0,1,2,3,10,100,1000,rnd} entries with name/uid/gid/muid lengths from {0,1,200,4000,rnd}, delivered by the underlying iterator in batches {1,2,7,all,PRNG}; read-count sequences {exactly max entry, max+1, 2*max-1, PRNG in [max,8*max], huge}; " +
 			"wrong-offset probes {0, off-1, off+1, off+count} at every step. Server half: Readdir (NewReaddir/NewReaddir1/NewFixedReaddir) directly and through Session.Open+Read on SFileSys; oracle = concatenation of replies equals the reference encoding of the listing, " +
 			"each reply <= count and made of whole entries, empty read at the end (and again), wrong offsets rejected without disturbing the stream. Client half: CFileSys(CSession) OpenDir iterator over ServeConn(SSession(SFileSys(fs))) with the negotiated msize forced to M " +
-			"in {max+11, max+12, 512, 4096, 65536}; oracle = entries returned equal the server's listing. non-trivial = an entry did not fit the remaining buffer (look-ahead) or a batch boundary fell inside a reply; distinct by (n, batch pattern, count pattern, msize)",
+			"in {max+11, max+12, 512, 4096, 65536}, including listings with one entry of DefaultMSize-26..DefaultMSize-11 bytes; read buffers are windows of a larger canary-filled arena (nothing beyond len may be touched); oracle = entries returned equal the server's listing. non-trivial = an entry did not fit the remaining buffer (look-ahead) or a batch boundary fell inside a reply; distinct by (n, batch pattern, count pattern, msize)",
 		Assumptions: []string{
 			"read counts are at least as large as the largest encoded entry (the property's premise); msize-11 >= largest entry on the client half",
 			"ServeConn's real 1 s negotiation timeout is the only wall-clock dependency; a handshake that misses it is retried and reported inconclusive, never violated",
@@ -33,7 +33,7 @@ func init() {
 		Shards:   shards(8, 16),
 		Timeout:  timeouts(5*time.Minute, 30*time.Minute),
 		MinEvals: 300,
-		Required: []string{"server_direct_listings", "server_session_listings", "client_listings", "lookahead_events", "bad_offset_probes", "final_empty_reads", "transient_iterator_errors"},
+		Required: []string{"server_direct_listings", "server_session_listings", "client_listings", "lookahead_events", "bad_offset_probes", "final_empty_reads", "transient_iterator_errors", "spare_capacity_reads", "giant_entry_listings"},
 		Run:      runC17,
 	})
 }
@@ -164,6 +164,30 @@ func genListing(w *mon.W, g *gen.G) *c17case {
 	return c
 }
 
+// giantListing: 1-3 entries, one of which encodes to between DefaultMSize-26 and DefaultMSize-11 bytes.
+func giantListing(w *mon.W, g *gen.G) *c17case {
+	c := &c17case{batches: []int{1 + w.Rng.Intn(3)}, batchPat: "giant"}
+	n := 1 + w.Rng.Intn(3)
+	gi := w.Rng.Intn(n)
+	target := p9p.DefaultMSize - 11 - w.Rng.Intn(16)
+	for i := 0; i < n; i++ {
+		d := g.SmallDir()
+		d.Name, d.UID, d.GID, d.MUID = fmt.Sprintf("e%d", i), "u", "g", "m"
+		if i == gi {
+			b, _ := refcodec.EncodeStat(d)
+			d.Name += strings.Repeat("x", target-len(b))
+		}
+		c.entries = append(c.entries, d)
+		b, _ := refcodec.EncodeStat(d)
+		c.ref = append(c.ref, b...)
+		c.sizes = append(c.sizes, len(b))
+		if len(b) > c.maxEnt {
+			c.maxEnt = len(b)
+		}
+	}
+	return c
+}
+
 func countSeq(w *mon.W, maxEnt int) (func() int, string) {
 	switch w.Rng.Intn(5) {
 	case 0:
@@ -213,8 +237,26 @@ func drainC17(w *mon.W, rd dirReader, c *c17case, via, desc string) {
 			}
 		}
 		cnt := next()
-		buf := make([]byte, cnt)
+		// the buffer handed over is a window of a larger arena: nothing beyond its length may be used
+		spare := 0
+		if w.Rng.Intn(2) == 0 {
+			spare = 1 + w.Rng.Intn(2*c.maxEnt+1)
+		}
+		arena := make([]byte, cnt+spare)
+		for j := cnt; j < len(arena); j++ {
+			arena[j] = 0xC7
+		}
+		buf := arena[:cnt]
 		n, err := rd.Read(ctx, buf, off)
+		if spare > 0 {
+			w.Count("spare_capacity_reads", 1)
+			for j := cnt; j < len(arena); j++ {
+				if arena[j] != 0xC7 {
+					w.Violate("mismatch", "C17:wrote-beyond-buffer:"+via, fmt.Sprintf("read of %d bytes at offset %d wrote beyond the buffer's length (byte %d of an arena of %d); %s", cnt, off, j, len(arena), desc), nil)
+					return
+				}
+			}
+		}
 		if err != nil && via == "readdir-transient-error" && err == errTransient && transientSeen < 3 {
 			// the underlying iterator failed once: whatever whole entries the read
 			// delivered count, and the listing continues at the running offset
@@ -356,6 +398,14 @@ func runC17(w *mon.W) {
 			s.Clunk(ctx, 1)
 			w.Count("server_session_listings", 1)
 		default:
+			if w.Rng.Intn(8) == 0 {
+				// one entry whose size is within a few bytes of what a default-msize Rread can carry
+				c = giantListing(w, g)
+				fs = &listFS{entries: c.entries, batches: c.batches}
+				desc = fmt.Sprintf("n=%d batches=%s maxEntry=%d (giant)", len(c.entries), c.batchPat, c.maxEnt)
+				w.Case("C17 %s", desc)
+				w.Count("giant_entry_listings", 1)
+			}
 			clientListC17(w, fs, c, desc)
 		}
 	}
